@@ -420,6 +420,9 @@ func c06CorpusGVV() []c06GScenario {
 		// resolved as "local wins": the shape C06_Refuted.C06_stale_merge_version_diverges
 		{"merge-then-local-stale-mv", false, []c06GStep{c06GW(A, 0, c06Edit, 2), c06GW(B, 0, c06Edit, 3), c06GPull(A, M), c06GW(B, 0, c06Edit, 4),
 			c06GPull(A, L), c06GPush(A), c06GPull(A, L), c06GPush(A)}, L},
+		// the local document kept against a remote TOMBSTONE, and a local tombstone kept against a remote edit
+		{"js-local-vs-tombstones", false, []c06GStep{c06GW(A, 0, c06Edit, 2), c06GW(B, 1, c06Edit, 2), c06GPush(A), c06GPull(A, D), c06GW(B, 0, c06Edit, 3), c06GW(B, 0, c06Delete, 0), c06GW(A, 0, c06Edit, 5), c06GW(A, 0, c06Edit, 4),
+			c06GW(A, 1, c06Delete, 0), c06GW(B, 1, c06Edit, 3), c06GPull(A, L), c06GPush(A)}, L},
 		// a resolver that answers null
 		{"js-null", false, []c06GStep{c06GW(A, 0, c06Edit, 2), c06GW(B, 0, c06Edit, 3), c06GPull(A, N), c06GPush(A)}, N},
 		// the chain: a merge made by A reaches C through B; C merges again; A accepts C's merge without a conflict
@@ -729,9 +732,10 @@ func c06RunRedeliver(t *testing.T, rec *vRecorder, rng *vRand, v4 bool, idx int)
 				if !before.o.Deleted && after.o.Deleted {
 					sig = proto + "redelivery-deleted-document"
 				}
-				if m.deleted && before.o.Deleted && after.o.Deleted && before.o.Rev == after.o.Rev && before.o.CV == after.o.CV && before.o.Body == after.o.Body && len(before.o.Tree) == len(after.o.Tree) {
+				if m.deleted && before.o.Deleted && after.o.Deleted && before.o.CV == after.o.CV && before.o.Body == after.o.Body {
 					// a tombstone delivered to a tombstoned document skips the "already present" test: the same
-					// revision and version are written again (a new sequence; the vector may gain history)
+					// version is written again (a new sequence; the vector may gain history; the sender's tombstone
+					// revision is added to the tree when the two sides hold different tombstone revisions)
 					sig = proto + "redelivered-tombstone-rewritten"
 				}
 				rec.Fail("redelivery_noop", sig, map[string]any{"protocol": c06Proto(v4), "scenario": fmt.Sprintf("redeliver-%d", idx), "resolver": rs.String(), "steps": append([]string{}, descs...),
@@ -916,7 +920,7 @@ func c06RunDeepening(t *testing.T, rec *vRecorder) {
 		sc := sc
 		t.Run("custom-"+sc.name, func(t *testing.T) { c06RunScenario(t, rec, "custom", sc, false, true) })
 	}
-	for i := 0; i < vBudget(3, 30); i++ {
+	for i := 0; i < vBudget(2, 30); i++ {
 		sc := c06Scenario{name: fmt.Sprintf("custom-random-%d-%d", vSeed(), i), plan: c06PlanCustom(rng, 5+rng.Intn(6), 3)}
 		t.Run(sc.name, func(t *testing.T) { c06RunScenario(t, rec, "custom", sc, false, true) })
 	}
